@@ -140,6 +140,10 @@ class C13Monitor(FBMonitor):
         if w.sc.get("collect"):
             if self.gamma_ref is None:
                 self.gamma_ref = np.array(gam, copy=True)
+            elif not np.allclose(gam, self.gamma_ref, rtol=1e-9, atol=0):
+                # the density test pools the steps of one run: only valid while gamma stays what it was
+                self.nonstationary = True
+                w.result.count("probe.density_run_gamma_changed")
             self.zetas.append(np.array(mc.zeta, copy=True))
 
     def on_exception(self, w, info):
@@ -182,7 +186,7 @@ def opposed_flags(mons, sigmas=6.0, slack=3.0):
 
 def density_flags(mon, min_gamma=0.99e-11):
     """KS statistic per coordinate -> list of (D*sqrt(n), D, n, gamma, mean, idx)"""
-    if not mon.zetas or mon.gamma_ref is None:
+    if not mon.zetas or mon.gamma_ref is None or getattr(mon, "nonstationary", False):
         return []
     Z = np.stack(mon.zetas)  # (S, n, 3)
     S = Z.shape[0]
@@ -268,7 +272,9 @@ class C13(Campaign):
                 sc["params"]["update_masses"] = [gen.logu(rnd, 0.5, 300.0) for _ in range(n)]
             else:
                 sc["params"]["update_masses"] = [[gen.logu(rnd, 0.5, 300.0) for _ in range(3)] for _ in range(n)]
-        if not density and rnd.random() < 0.15:
+        if rnd.random() < 0.15:
+            # (density runs too: with a constant committee the adapted delta is constant, and the density must be the one
+            # for the temperature the user configured - seeded C13-5)
             sc["driver"] = "AdaptiveForceBias"
             sc["params"].update({"min_delta": gen.logu(rnd, 1e-3, 0.05), "max_delta": gen.logu(rnd, 0.06, 0.5),
                                  "scheme": rnd.choice(["forces", "energy"]), "update_function": rnd.choice(["tanh", "exp"])})
